@@ -950,3 +950,6 @@ def run_case(r, obs):
 
 _reported = {}     # mech -> violations already recorded by this worker process
 MAX_PER_MECH = 4   # the worker keeps at most 200 violations: one mechanism must not fill it
+
+
+RULE += (' Run-driven Splits also contain Source branches and fill branches that stop (Slice through fill_into) after mutating their block; a fifth of the flows carry contexts of class lena.context.Context; part (b) includes Vectorize over multi-result components and Mean over sum sequences that yield several values.')
